@@ -4,8 +4,8 @@ import (
 	"bytes"
 	"math/big"
 
-	gbn "github.com/ethereum/go-ethereum/crypto/bn256/google"
 	"github.com/dedis/kyber"
+	gbn "github.com/ethereum/go-ethereum/crypto/bn256/google"
 
 	"verif/harness/hx"
 )
@@ -256,31 +256,68 @@ func genC11(rng *hx.Rng, tier string, w *hx.Writer) error {
 		c11Decode(w, GrpG1, rng.Bytes(rng.Intn(70)), "", "random-length")
 		c11Decode(w, GrpG2, rng.Bytes(rng.Intn(140)), "", "random-length")
 	}
-	// decoding into a point that already holds another element must overwrite it
+	// decoding into a point that already holds another element must overwrite it - whatever way the
+	// receiver came to its value (decoded, computed in Jacobian form, a sum, a negation), and also when
+	// what is decoded is the identity; Null() on a used point must give the identity
 	for it := 0; it < 4*scale; it++ {
 		for _, grp := range []int{GrpG1, GrpG2} {
 			g := GroupOf(grp)
-			encA := PtBytes(Pt(g, rng.BigBelow(BnQ), BnQ))
-			encB := PtBytes(Pt(g, new(big.Int).Add(rng.BigBelow(new(big.Int).Sub(BnQ, big.NewInt(1))), big.NewInt(1)), BnQ))
-			impl := hx.Catch(func() string {
-				p := g.Point()
-				if err := p.UnmarshalBinary(encA); err != nil {
-					return hx.E
+			for variant := 0; variant < 5; variant++ {
+				ka := new(big.Int).Add(rng.BigBelow(new(big.Int).Sub(BnQ, big.NewInt(2))), big.NewInt(2))
+				kb := new(big.Int).Add(rng.BigBelow(new(big.Int).Sub(BnQ, big.NewInt(1))), big.NewInt(1))
+				ident := (it+variant)%2 == 1
+				if ident {
+					kb = big.NewInt(0)
 				}
-				if err := p.UnmarshalBinary(append([]byte{}, encB...)); err != nil {
-					return hx.E
+				encA := PtBytes(Pt(g, ka, BnQ))
+				encB := PtBytes(Pt(g, kb, BnQ))
+				tag := []string{"decoded", "computed", "sum", "negated", "null"}[variant]
+				impl := hx.Catch(func() string {
+					var p kyber.Point
+					switch variant {
+					case 0:
+						p = g.Point()
+						if err := p.UnmarshalBinary(encA); err != nil {
+							return hx.E
+						}
+					case 1:
+						p = g.Point().Mul(Sc(g, ka, BnQ), nil)
+					case 2:
+						p = g.Point().Add(g.Point().Mul(Sc(g, ka, BnQ), nil), g.Point().Base())
+					case 3:
+						p = g.Point().Neg(g.Point().Mul(Sc(g, ka, BnQ), nil))
+					default:
+						p = g.Point().Mul(Sc(g, ka, BnQ), nil)
+						if ident {
+							p.Null()
+							if !p.Equal(g.Point().Null()) {
+								return "z1"
+							}
+							return hx.B(PtBytes(p))
+						}
+					}
+					if err := p.UnmarshalBinary(append([]byte{}, encB...)); err != nil {
+						return hx.E
+					}
+					if !p.Equal(Pt(g, kb, BnQ)) {
+						return "z1" // decoded without an error but not equal to the element
+					}
+					return hx.B(PtBytes(p))
+				})
+				oracle := "ok"
+				if impl != hx.B(encB) {
+					oracle = hx.Fail("decode-into-used-receiver", "decoding into (or Null() on) a point that already held another element ("+tag+") does not yield the decoded element")
 				}
-				return hx.B(PtBytes(p))
-			})
-			oracle := "ok"
-			if impl != hx.B(encB) {
-				oracle = hx.Fail("decode-into-used-receiver", "decoding into a point that already held another element does not yield the decoded element")
+				op := 1
+				if grp == GrpG2 {
+					op = 2
+				}
+				tags := []string{"receiver-reuse", "receiver-" + tag, "nt"}
+				if ident {
+					tags = append(tags, "identity")
+				}
+				w.Put(hx.Case{Entry: "bn", Op: op, Args: hx.L(hx.B(encB)), Impl: impl, Oracle: oracle, Tags: tags})
 			}
-			op := 1
-			if grp == GrpG2 {
-				op = 2
-			}
-			w.Put(hx.Case{Entry: "bn", Op: op, Args: hx.L(hx.B(encB)), Impl: impl, Oracle: oracle, Tags: []string{"receiver-reuse", "nt"}})
 		}
 		{
 			gA := PtBytes(Bn.GT().Point().Mul(Sc(Bn.G1(), rng.BigBelow(BnQ), BnQ), nil))
